@@ -4,9 +4,22 @@
    over solutions is how "unichain" enters). *)
 From Coq Require Import QArith Qabs List Arith ZArith Bool.
 From MdpaxV Require Import Model.ListUtil Model.QFun Model.MDP Model.Bellman Model.Solvers Model.CorrSolve
-     Proofs.LoopP Proofs.C01P Proofs.C01RunP Proofs.C04P Proofs.C04RunP Proofs.C04DriftP.
+     Proofs.LoopP Proofs.C01P Proofs.C01RunP Proofs.C04P Proofs.C04RunP Proofs.C04DriftP Proofs.GenRviP.
+From MdpaxGen Require Import GenRviStep.
 Import ListNotations.
 Open Scope Q_scope.
+
+(* tie by translation: the initial gain and the iteration step GENERATED from RelativeValueIteration's source are the
+   ones of the solver state machine the theorems below are about (the swept vector up to the canonical form Qred) *)
+Theorem generated_rvi_step_is_the_modelled_step : forall V0, r_gain (rvi_init V0) = gen_rvi_initial_gain V0.
+Proof. exact gen_rvi_initial_gain_eq. Qed.
+Print Assumptions generated_rvi_step_is_the_modelled_step.
+Theorem generated_rvi_step_values_and_gain : forall eps (SW : list Q -> list Q) (aux : list Q -> Q) SPAN st,
+  let st' := fst (rvi_sweep_step eps SW st) in
+  let '(nv, _, gn) := gen_rvi_iteration_step (fun v => (SW v, aux v)) SPAN (r_vals st) (r_gain st) in
+  Forall2 Qeq (r_vals st') nv /\ r_gain st' == gn /\ r_iter st' = r_iter st /\ r_pol st' = r_pol st.
+Proof. exact gen_rvi_step_eq. Qed.
+Print Assumptions generated_rvi_step_values_and_gain.
 
 Theorem gain_bracket : forall (M : mdp), wf M -> forall gs hs h, aroe M gs hs ->
   fmin (fun s => T M 1 h s - h s) (nS M) <= gs <= fmax (fun s => T M 1 h s - h s) (nS M).
